@@ -74,10 +74,10 @@ namespace chaiscript {
       t_long_double
     };
 
-    template<typename T>
+    template<typename LHS, typename T>
     constexpr static inline void check_divide_by_zero([[maybe_unused]] T t) {
 #ifndef CHAISCRIPT_NO_PROTECT_DIVIDEBYZERO
-      if constexpr (!std::is_floating_point<T>::value) {
+      if constexpr (!std::is_floating_point<LHS>::value && !std::is_floating_point<T>::value) {
         if (t == 0) {
           throw chaiscript::exception::arithmetic_error("divide by zero");
         }
@@ -181,7 +181,7 @@ namespace chaiscript {
         case Operators::Opers::sum:
           return const_var(c_lhs + c_rhs);
         case Operators::Opers::quotient:
-          check_divide_by_zero(c_rhs);
+          check_divide_by_zero<LHS>(c_rhs);
           check_divide_overflow(c_lhs, c_rhs);
           return const_var(c_lhs / c_rhs);
         case Operators::Opers::product:
@@ -199,7 +199,7 @@ namespace chaiscript {
           case Operators::Opers::shift_right:
             return const_var(c_lhs >> c_rhs);
           case Operators::Opers::remainder:
-            check_divide_by_zero(c_rhs);
+            check_divide_by_zero<LHS>(c_rhs);
             check_divide_overflow(c_lhs, c_rhs);
             return const_var(c_lhs % c_rhs);
           case Operators::Opers::bitwise_and:
@@ -225,7 +225,7 @@ namespace chaiscript {
             *t_lhs += c_rhs;
             return t_bv;
           case Operators::Opers::assign_quotient:
-            check_divide_by_zero(c_rhs);
+            check_divide_by_zero<LHS>(c_rhs);
             check_divide_overflow(c_lhs, c_rhs);
             *t_lhs /= c_rhs;
             return t_bv;
@@ -251,7 +251,7 @@ namespace chaiscript {
               *t_lhs >>= c_rhs;
               return t_bv;
             case Operators::Opers::assign_remainder:
-              check_divide_by_zero(c_rhs);
+              check_divide_by_zero<LHS>(c_rhs);
               check_divide_overflow(c_lhs, c_rhs);
               *t_lhs %= c_rhs;
               return t_bv;
